@@ -53,6 +53,14 @@ chk("C13", E1, "exploration",
     "Runs 0..454 enumerate all pairs and triples of 14 boundary identifiers (byte boundaries, 0, 0xFFFF); further runs sample the 16-bit range. Each case is a fault-free session (sync + KeyGen and/or Sign, scripted backend with rounds 0..127, or BLS with serialisation round trip and sign/verify) run twice under the same seed: with the drawn ids and with the order-isomorphic ids 1..n; outcome, hand-off counts and totality must agree.",
     "deterministic simulation, differential twin run (large ids vs order-isomorphic small ids)", "DESIGN.md §4 C13")
 
+chk("C14", "coop", "exploration",
+    "The real msg.Box is compiled with its imports sync and sync/atomic redirected (go build -overlay, regenerated from the working tree by every check) to scheduler-aware shims: every caller is a real goroutine that parks before each Lock/Unlock/RLock/RUnlock/atomic/Once operation; at quiescence the seeded scheduler computes the enabled set from its own lock-ownership model and releases exactly one task (random walk, PCT d=1..3, delay-bounded). Workloads: 1..3 topics, 1..3 senders with 1..4 sequential HandleMessage calls each, 1..3 tasks calling Send (several on one topic; a handler that itself calls Send in 30% of the runs), 0..2 clock ticks through the NewTicker seam. Oracle after one additional Send per started topic: every message received on a started topic was handed over exactly once, per (topic, sender) in arrival order, nothing handed over for never-started topics, no deadlock, no panic.",
+    "controlled-concurrency deterministic simulation at lock granularity (import-substituted sync shims, seeded scheduler), exactly-once/order oracle", "DESIGN.md §4 C14",
+    note="Trusted: the shims (drop-in method sets, pass-through for non-task goroutines), the scheduler's lock model, testing/synctest quiescence. Only package msg is instrumented; channel operations are not scheduling points (msg.Box has none on these paths except its clock goroutine, which is driven by the simulator).")
+chk("C15", "box", "exploration",
+    "Seeded histories of 20..250 (thorough ..2500) operations recv(sender, topic, burst up to 110) / send(topic) / idle(up to 3 expiry periods) on a real msg.Box inside one bubble: its ticker and time.Now read the simulated clock; MaxInFlightTopicsBySender 1..6, GCSweep 1/5/20 s, GCExpire 2..6 sweeps (production values in part of the thorough runs). A reference model judges every operation with narrow tolerances: never a panic or premature / duplicate / foreign hand-off; messages of a sender that was surely within the limits at arrival are released when their topic starts before expiry - 1 sweep, however many topics started or expired earlier; messages beyond limit+1 are not; data idle for more than two expiry periods + 2 sweeps followed by three sends in distinct sweep periods is discarded; in the tolerance bands either outcome is accepted.",
+    "deterministic simulation over generated operation histories on the simulated clock, reference model with narrow tolerances", "DESIGN.md §4 C15",
+    note="Trusted: the reference model (its tolerances are stated in the rule), testing/synctest fake clock. Single caller: interleavings are C14's subject.")
 chk("C19", E1, "exploration",
     "KeyGen followed by Sign among t+1 nodes with the real EdDSA adapter and real tss-lib v2.0.2 through the full stack under seeded schedules, (n,t) in {(2,1),(3,1),(3,2),(4,2),(4,3)}; ECDSA in ~4% (quick) / 12% (thorough) of the runs (20-60 s each: safe-prime generation has no seam). A recording proxy captures every sendMsg(payload, isBroadcast): a fresh receiver-side adapter must classify each payload with the same broadcast flag; distinct broadcast-class type URLs of one phase must have distinct rounds; in 20% of the EdDSA runs one participant re-sends other parties' payloads under its own authenticated identity and the honest parties must finish with a valid signature or all fail; every returned signature is verified with crypto/ed25519 / crypto/ecdsa for the requested digest (32 random bytes, leading zero bytes, 0..20 bytes, 64 bytes) and must not verify for other sampled digests.",
     "deterministic simulation of the real adapters + tss-lib, routing/classification monitor, independent signature verification", "DESIGN.md §4 C19",
